@@ -117,6 +117,9 @@ func c03Ops(s []int) []ref.Op {
 }
 
 func checkC03(c *core.Ctx) {
+	defer sweepC03(c)
+	defer soakC03(c)
+	defer gridC03(c)
 	sameOperandSequence(c, "sameoperand", [][]int{{3}, {2, 3}, {2, 1, 3}, {5, 2}}, c03Ops, false)
 	composeCases(c, "compose", composeShapes, consumersElementwise, false)
 	shapes := append(enum.ShapeSet(c.Thorough()), longShapes(c.Thorough())...)
@@ -337,6 +340,9 @@ func checkEquals(a, b *ref.T) core.Verdict {
 /* ---------------- C04 ---------------- */
 
 func checkC04(c *core.Ctx) {
+	defer sweepC04(c)
+	defer soakC04(c)
+	defer gridC04(c)
 	composeCases(c, "compose", composeShapes, consumersLinalg, false)
 	// batch shapes
 	var batches [][]int
@@ -753,6 +759,8 @@ func c05SameOperand(c *core.Ctx) {
 }
 
 func checkC05(c *core.Ctx) {
+	defer gridC05(c)
+	defer soakC05(c)
 	c05SameOperand(c)
 	composeCases(c, "compose", composeShapes, consumersReduce, false)
 	kinds := []string{"Sum", "Max", "Min", "Avg", "Var", "Std", "Mean"}
@@ -827,8 +835,13 @@ func checkC05(c *core.Ctx) {
 			return t
 		}},
 	}
-	for _, s := range append(enum.ShapeSet(c.Thorough()), longShapes(c.Thorough())...) {
+	base05 := append(enum.ShapeSet(c.Thorough()), longShapes(c.Thorough())...)
+	nBase05 := len(base05)
+	for si, s := range append(base05, sweepShapes05(c.Thorough())...) {
 		for _, md := range modes {
+			if si >= nBase05 && md.name != "generic" && md.name != "ascending" && md.name != "two-valued" && md.name != "tie" {
+				continue // length sweep (see checks_sweep.go): four value modes
+			}
 			s, md := s, md
 			c.Case(fmt.Sprintf("global/%s/%v", md.name, s), ref.Size(s) > 1, func() core.Verdict {
 				x := md.gen(s)
